@@ -100,6 +100,10 @@ verus! {
 // ---- state construction (C03.2)
 //@lift feos-core/src/state/mod.rs State::new_nvt_unchecked
 //@end
+//@lextern validate_moles(L_Eos, Option<RArr>) -> Result<RArr, LErr>
+//@lextern validate(real, real, RArr) -> Result<(), LErr>
+//@lift feos-core/src/state/mod.rs State::new_nvt
+//@end
 // =====================================================================================
 // Contracts.  `g(s, k)` abbreviates get_or_compute_derivative_residual: by unit cache (C01.3) it is
 // the derivative of A^res·(1/kT)·T that the key k denotes.
@@ -211,6 +215,17 @@ pub proof fn contract_c03_2_new_nvt_unchecked(eos: L_Eos, temperature: real, vol
         // exactly the specified temperature, volume and amounts; derived fields consistent
         s.eos == eos && s.temperature == temperature && s.volume == volume && s.moles == moles && wf(s)
     })
+{}
+
+/// new_nvt: a state is returned only if both validations accepted the input, and it is exactly the
+/// state of the given T, V, N (frame: nothing else enters)
+pub proof fn contract_c03_2_new_nvt(eos: L_Eos, temperature: real, volume: real, moles: RArr)
+    ensures
+        new_nvt(eos, temperature, volume, moles) is Ok ==> (
+            validate_moles(eos, Some(moles)) is Ok && validate(temperature, volume, moles) is Ok
+            && new_nvt(eos, temperature, volume, moles)->Ok_0 == new_nvt_unchecked(eos, temperature, volume, moles)),
+        (validate_moles(eos, Some(moles)) is Err || validate(temperature, volume, moles) is Err)
+            ==> new_nvt(eos, temperature, volume, moles) is Err,
 {}
 
 // ---- C10.3: the ideal-gas terms are the derivatives of p_id = N R T / V
